@@ -3,6 +3,6 @@ From IV Require Import Base.Bytes Base.BytesFacts Model.Policy Model.Smtp Model.
 From Coq Require Import ZifyBool ZifyNat Lia Permutation.
 From IV Require Import Proofs.HooksThms.
 Theorem silent_listener_is_absent : forall (E R : Type) (ls1 ls2 : list (E -> option R)) l e,
-  l e = None -> emit (ls1 ++ l :: ls2) e = emit (ls1 ++ ls2) e.
+  l e = None -> broker_emit (ls1 ++ l :: ls2) e = broker_emit (ls1 ++ ls2) e.
 Proof. exact HooksThms.silent_listener_is_absent. Qed.
 Print Assumptions silent_listener_is_absent.
